@@ -566,8 +566,8 @@ Lemma oreply_eqb_eq a b : oreply_eqb a b = true -> a = b.
 Proof.
   destruct a, b; unfold oreply_eqb; simpl; intro H.
   repeat (apply andb_true_iff in H; let H' := fresh "E" in destruct H as [H H']).
-  apply Z.eqb_eq in H. apply location_eqb_eq in E2. apply String.eqb_eq in E1.
-  apply (list_eqb_sound _ ocookie_eqb_eq) in E0. apply Bool.eqb_prop in E. subst. reflexivity.
+  apply Z.eqb_eq in H. apply location_eqb_eq in E3. apply String.eqb_eq in E2.
+  apply (list_eqb_sound _ ocookie_eqb_eq) in E1. apply Bool.eqb_prop in E0. apply Z.eqb_eq in E. subst. reflexivity.
 Qed.
 
 Lemma wire_eqb_refl w : wire_eqb w w = true.
@@ -599,11 +599,11 @@ Lemma start_flow_spec cfg now u idx rid :
   cfg_wf cfg -> nonempty idx = true ->
   let o := project (fst (start_flow cfg now u idx rid)) in
   forallb (cookie_flags_ok cfg false) (or_cookies o) && negb (o_sets_session o)
-  && started_flow_ok u o = true.
+  && started_flow_ok cfg u o = true.
 Proof.
   intros (Hage & Hmax & (k & Hk) & _) Hne. unfold started_flow_ok. simpl. rewrite Hne.
   unfold cookie_flags_ok; simpl. rewrite !String.eqb_refl, Hage, Z.eqb_refl.
-  destruct (m_acs_https cfg); simpl; rewrite Hmax, Hk, sec_shift, Z.eqb_refl; reflexivity.
+  destruct (m_post_binding cfg); destruct (m_acs_https cfg); simpl; rewrite Hmax, Hk, sec_shift, Z.eqb_refl; reflexivity.
 Qed.
 
 (* a delivery that satisfies the premises of C17_interleaving is accepted by the model *)
